@@ -31,10 +31,12 @@ TMake == /\ Ev.ev = "make" /\ MakeAny(Ev.g)
 (* the text on the stream after the dump, tokenized by the harness, is what Render says *)
 TDump == /\ Ev.ev = "dump" /\ Dump(Ev.route, Ev.dec)
          /\ text'.lines = Ev.lines
+TDumpConf == /\ Ev.ev = "dumpconf" /\ DumpConformer(Ev.route, Ev.i, Ev.dec)
+             /\ text'.lines = Ev.lines
 (* a text of another program: whatever frames it holds, in the unit it declares *)
 TForeign ==
   /\ Ev.ev = "foreign"
-  /\ LET t == [fmt |-> Ev.fmt, unit |-> Ev.unit, dec |-> Ev.dec, lines |-> Ev.lines, small |-> FALSE, dumps |-> 0]
+  /\ LET t == [fmt |-> Ev.fmt, unit |-> Ev.unit, dec |-> Ev.dec, lines |-> Ev.lines, small |-> FALSE, dumps |-> 0, world |-> 1]
          p == Parse(t, "all")
      IN /\ p.ok
         /\ PutText([act |-> "foreign", fmt |-> Ev.fmt, unit |-> Ev.unit, dec |-> Ev.dec], t,
@@ -49,7 +51,7 @@ TLoad == /\ Ev.ev = "load" /\ Load(Ev.cls, Ev.entry, Ev.units, 1)
                              THEN TRUE ELSE FALSE
 
 Step == /\ ti <= NT /\ l <= Len(Tr)
-        /\ (TMake \/ TDump \/ TForeign \/ TLoad)
+        /\ (TMake \/ TDump \/ TDumpConf \/ TForeign \/ TLoad)
         /\ l' = l + 1 /\ ti' = ti
 
 Reset == mem' = NoObj /\ text' = NoText /\ truth' = <<>> /\ last' = [act |-> "init"]
